@@ -12,8 +12,20 @@ by evaluating a literal - and `==`, `!=`, hash, `in`, lookup, removal, set
 difference, equals / not_equals, find, container `==` are compared with the
 table, through the Python API and through interpreted programs.
 Binding B: random values to depth 3 (ints beyond 2^53 as limbs, decimals as
-exact rationals), equal variants and near misses; the relations and
-container histories the implementation produced are validated by TLC.
+exact rationals - neighbouring doubles included -, dates to the microsecond),
+equal variants and near misses, values MADE by natives (decimal arithmetic,
+date(<number>), date arithmetic); the relations - through the API and through
+one interpreted program with two dozen observers of "the same value?" that
+must all agree with `==` - and container histories the implementation
+produced are validated by TLC.
+
+Values with a history (spec/ValEdit.tla, Val.tla ApplyEdit): an object whose
+hash was taken (set member, map key) and that a program then edits in place
+(l[i] = e, append, insert_at, delete_at, remove, put, s[i] = c, also one level
+down) must be interchangeable with a freshly written value of its present
+content.  Binding A replays every transition of ValEdit on a real object;
+binding B drives random objects through random edit sequences and lets
+Val_Trace step the content (hnew / hedit / hrel).
 """
 import random
 
@@ -693,6 +705,10 @@ def edit_api(w, path, op, refs):
     """the same edit through the methods of ckl.values; False: no method performs it"""
     t = sub_object(w, path, refs)
     n = op["name"]
+    meth = {"append": "addItem", "insertat": "insertAt", "deleteat": "deleteAt", "remove": "removeItem",
+            "put": "addItem"}.get(n)
+    if meth is None or not callable(getattr(t, meth, None)):
+        return False            # no such method (any more): the edit goes through a program instead
     if n == "append":
         t.addItem(M.build(op["e"], refs))
     elif n == "insertat":
@@ -754,9 +770,13 @@ def check_edits(cx, res, use_api):
             o = im.run(M.literal(pre))
             w = o[1] if o[0] == "val" and M.vkey(o[1], im.refs) == M.akey(pre) else M.build(pre, im.refs)
         touch(cx, w)
+        o = None
         if via_api:
             o = M.host(lambda: edit_api(w, path, op, im.refs))
-        else:
+            if o[0] == "val" and o[1] is False:
+                o = None
+                desc = edit_desc(pre, path, op, alt)
+        if o is None:
             o = im.run(edit_stmt(path, op, alt))
         cx.n_eval += 1
         if o[0] == "host":
@@ -911,6 +931,8 @@ def history_trace(cx, rng, events, meta):
     im = cx.im
     start = M.gen_value(rng, rng.choice([1, 2, 2]), kinds=rng.choice([["list"], ["list"], ["list", "map"], ["set"],
                                                                        ["map", "list"]]), elem=rich_scalar)
+    if not M.evaluable(start):      # the edits are programs that name elements and keys of the object
+        start = whole_seconds(start)
     if start["k"] not in ("list", "set", "map"):
         start = M.a_list([start])
     if rng.random() < 0.15:
